@@ -327,4 +327,4 @@ def check(case, ctx):
 
 
 def parts(tier):
-    return [Part("histories", check, strategy=case_strategy(), examples=(300, 3000))]
+    return [Part("histories", check, strategy=case_strategy(), examples=(300, 8000))]
